@@ -241,7 +241,10 @@ func decodeFloat(buf []byte) ([]byte, float64, error) {
 }
 
 func encodeFloat(x float64) []byte {
-	if x == 0 || math.IsNaN(x) || math.IsInf(x, 0) {
+	// Magnitudes below 1e-300 are read back as zero by decodeFloat.  Write
+	// them as zero: the digit extraction below is inexact for subnormal
+	// numbers and does not terminate when x/10^(l-9) overflows.
+	if x == 0 || math.IsNaN(x) || math.IsInf(x, 0) || math.Abs(x) < 1e-300 {
 		return []byte{0x0f}
 	}
 
